@@ -127,7 +127,8 @@ class NumpyQuantity(Generic[MagnitudeT], PlainQuantity[MagnitudeT]):
             if isinstance(min, self.__class__):
                 min = min.to(self).magnitude
             elif self.dimensionless:
-                pass
+                # a bare number is a dimensionless quantity (percent, ppm, ... are scaled)
+                min = self.__class__(min, "").to(self).magnitude
             else:
                 raise DimensionalityError("dimensionless", self._units)
 
@@ -135,7 +136,7 @@ class NumpyQuantity(Generic[MagnitudeT], PlainQuantity[MagnitudeT]):
             if isinstance(max, self.__class__):
                 max = max.to(self).magnitude
             elif self.dimensionless:
-                pass
+                max = self.__class__(max, "").to(self).magnitude
             else:
                 raise DimensionalityError("dimensionless", self._units)
         return self.__class__(self.magnitude.clip(min, max, out, **kwargs), self._units)
